@@ -37,7 +37,7 @@ PROPS = {
     'C01': {
         'mc_quick': ['MC_quick.cfg'], 'mc_thorough': MC_THOROUGH,
         'title': 'Cache transparency',
-        'units': [('general', 1500, 30000), ('rebuild', 500, 10000), ('foreign', 500, 8000),
+        'units': [('general', 1500, 30000), ('nested', 1500, 30000), ('rebuild', 500, 10000), ('foreign', 500, 8000),
                   ('clean', 300, 4000), ('regress', 0, 0)],
         # a stale answer anywhere (C01: "always shows up in the result exactly as from scratch")
         'owned': C01_CLAUSES,
@@ -73,7 +73,8 @@ PROPS = {
     'C04': {
         'mc_quick': ['MC_quick.cfg'], 'mc_thorough': MC_THOROUGH,
         'title': 'Virtual view',
-        'units': [('probe', 700, 12000), ('general', 500, 8000), ('bfcontract', 300, 5000), ('regress', 0, 0)],
+        'units': [('probe', 700, 12000), ('general', 500, 8000), ('nested', 1000, 15000), ('bfcontract', 300, 5000),
+                  ('regress', 0, 0)],
         'owned': {'AnswerMatches'},
         'nontrivial': lambda st, sc: st['q'] >= 10,
         'rule': 'every query kind on every universe path ("probe-all") at many points of random programs; '
@@ -82,7 +83,8 @@ PROPS = {
     'C05': {
         'mc_quick': ['MC_quick.cfg'], 'mc_thorough': MC_THOROUGH,
         'title': 'Cache effectiveness',
-        'units': [('rebuild', 2000, 40000), ('general', 700, 10000), ('cmp', 300, 6000), ('regress', 0, 0)],
+        'units': [('rebuild', 2000, 40000), ('nested', 2500, 40000), ('rebuildclean', 800, 10000), ('general', 700, 10000),
+                  ('cmp', 300, 6000), ('regress', 0, 0)],
         'owned': {'ExecOnlyIfJustified', 'OutputsNotRewritten', 'PersistedEqualsReturned'},
         'nontrivial': lambda st, sc: st['reuse'] > 0,
         'rule': 'committed build followed by unchanged rebuilds / rebuilds after single mutations; '
@@ -233,7 +235,7 @@ PROPS = {
     'C12': {
         'mc_quick': ['MC_quick_clean.cfg'], 'mc_thorough': [('MC_tiny.cfg', 900)],
         'title': 'clean',
-        'units': [('clean', 2000, 30000), ('rebuildclean', 2500, 40000), ('foreign', 300, 5000)],
+        'units': [('clean', 2000, 30000), ('rebuildclean', 2000, 30000), ('nested', 1500, 20000), ('foreign', 300, 5000)],
         'owned': {'CleanExact', 'CleanNoCacheNoEffect', 'ForeignUntouched', 'NoSpuriousException',
                   'ReuseOnlyIfValid'},
         'nontrivial': lambda st, sc: st['clean'] > 0,
